@@ -57,3 +57,15 @@ let () = reg "C05" "Trace" (fun ver args _obs ->
     done
   with Exhausted | Failure _ -> fail "?" "malformed trace");
   { model = []; tags = ["trace"]; spec = !problem; known = None })
+
+(* Par <prop> <op> <args..>: the case <prop>/<op> run from several goroutines at once must give its sequential observation *)
+let () = reg "C05" "Par" (fun ver args obs ->
+  match args with
+  | prop :: op :: rest ->
+    (match obs with
+     | "PARMISMATCH" :: _ -> { model = ["same-observation-in-every-goroutine"]; tags = ["parallel"]; spec = Some "the same call made from several goroutines at once gave different results"; known = None }
+     | _ ->
+       (match Hashtbl.find_opt handlers (prop ^ "/" ^ op) with
+        | Some h -> let v = h ver rest obs in { v with tags = "parallel" :: v.tags; known = None }
+        | None -> { model = []; tags = []; spec = Some ("no handler for " ^ prop ^ "/" ^ op); known = None }))
+  | _ -> { model = []; tags = []; spec = Some "malformed Par case"; known = None })
